@@ -87,7 +87,7 @@ type c10Case struct {
 	Reg  int // bitmask over {progress, message, custom}
 	Pad  int
 	PadS string // appended to every string the handler puts into a notification and to the result text
-	HErr int // bitmask over the notifications the client's handlers receive, in order: bit n set = the handler returns an error for the n-th
+	HErr int    // bitmask over the notifications the client's handlers receive, in order: bit n set = the handler returns an error for the n-th
 }
 
 var c10Methods = []string{"notifications/progress", "notifications/message", "notifications/custom"}
